@@ -1825,12 +1825,19 @@ func CtlNest() []Case {
 						innerSel := wg.Bin("&", wg.I32, wg.Bin("+", wg.I32, wg.Load(wg.RVar("j", wg.I32)), in(1)), wg.LitI(3))
 						innerBody := []wg.N{
 							wg.Inc(cnt),
-							wg.If(wg.Bin("<", wg.Bool, in(2), wg.Load(wg.RVar("j", wg.I32))), []wg.N{bump(5), j}, nil),
+							wg.If(wg.Bin("==", wg.Bool, wg.Bin("&", wg.I32, wg.Bin("^", wg.I32, wg.Load(wg.RVar("j", wg.I32)), in(2)), wg.LitI(1)), wg.LitI(1)), []wg.N{bump(5), j}, nil),
 							bump(7),
 						}
 						inner := mkLoop(ik, "j", 3, []wg.N{mkSwitch(is, innerSel, innerBody), bump(11)})
 						outerSel := wg.Bin("&", wg.I32, wg.Bin("+", wg.I32, wg.Load(wg.RVar("i", wg.I32)), in(0)), wg.LitI(3))
-						outerBody := append(append([]wg.N{}, inner...), bump(13))
+						// the outer clause jumps too (on other iterations than the inner one)
+						var j2 wg.N = wg.Continue()
+						if jump == "break" {
+							j2 = wg.Break()
+						}
+						outerBody := append(append([]wg.N{}, inner...), bump(13),
+							wg.If(wg.Bin("==", wg.Bool, wg.Bin("&", wg.I32, wg.Bin("^", wg.I32, wg.Load(wg.RVar("i", wg.I32)), in(4)), wg.LitI(1)), wg.LitI(1)), []wg.N{bump(19), j2}, nil),
+							bump(23))
 						outer := mkLoop(ok, "i", 3, []wg.N{mkSwitch(os, outerSel, outerBody), bump(17)})
 						body := append([]wg.N{wg.Var("acc", wg.I32, in(3)), wg.Var("cnt", wg.I32, wg.LitI(0))}, outer...)
 						body = append(body, st(0, wg.Load(acc)), st(1, wg.Load(cnt)))
@@ -1843,7 +1850,7 @@ func CtlNest() []Case {
 						}
 						c := Case{Family: "ctlnest", Desc: fmt.Sprintf("ctlnest %s>%s>%s>%s %s", ok, sw(os), ik, sw(is), jump),
 							Prog: wg.Program(nil, nil, globals, []wg.N{wg.Entry("main", nil, body)})}
-						for _, r := range [][]int32{{0, 0, 0, 1, 0, 0, 0, 0}, {1, 2, 1, 2, 0, 0, 0, 0}, {2, 1, -1, 3, 0, 0, 0, 0}, {3, 3, 5, 1, 0, 0, 0, 0}, {0, 1, 2, 7, 0, 0, 0, 0}} {
+						for _, r := range [][]int32{{0, 0, 0, 1, 0, 0, 0, 0}, {1, 2, 1, 2, 1, 0, 0, 0}, {2, 1, 0, 3, 1, 0, 0, 0}, {3, 3, 1, 1, 0, 0, 0, 0}, {0, 1, 2, 7, 2, 0, 0, 0}} {
 							c.Inputs = append(c.Inputs, [][]int32{r, {0, 0}})
 						}
 						out = append(out, c)
